@@ -39,8 +39,9 @@ SYSTEM_METHOD = {'triclinic': 'triclinic', 'monoclinic': 'monoclinic', 'orthorho
                  'rhombohedral': 'rhombohedral', 'hexagonal': 'hexagonal', 'cubic': 'cubic'}
 
 SOURCES = tuple(['spd:' + r for r in REPRS] + list(SYSTEMS) + ['isotropic', 'tiny-entry'])
-ROTATIONS = ('haar', 'product', 'cubic-group', 'small-angle', 'about-axis', 'scaled-rows', 'tiny-angle')
+ROTATIONS = ('haar', 'product', 'cubic-group', 'small-angle', 'about-axis', 'scaled-rows', 'tiny-angle', 'half-turn')
 STRAINS = ('random', 'hydrostatic', 'uniaxial', 'pure-shear', 'large')
+HISTORY_OPS = ('read', 'read-and-scribble', 'moduli', 'transform', 'normalized', 'reassign')
 
 _finite_group = {}
 
@@ -154,6 +155,9 @@ def rotation(rng, cls):
         ax = np.eye(3)[int(rng.integers(0, 3))]
         ang = (rng.uniform(-np.pi, np.pi), np.pi - 10 ** rng.uniform(-7, -2), np.pi / 2, np.pi)[int(rng.integers(0, 4))]
         return O.rot_axis(ax, float(ang))
+    if cls == 'half-turn':          # exact 2-fold about a coordinate axis: |axes| is diagonal, rows of any length
+        r = O.rot_axis(np.eye(3)[int(rng.integers(0, 3))], np.pi).round()
+        return r * (np.array([1.0, 1.0, 1.0]) if rng.random() < 0.5 else rng.integers(1, 6, size=3).astype(float))[:, None]
     if cls == 'scaled-rows':
         if rng.random() < 0.5:
             a = np.array(_MILLER_AXES[int(rng.integers(0, len(_MILLER_AXES)))], float)
